@@ -133,6 +133,31 @@ theorem c12_witness_classes :
     holds .asWritten okFresh .init witnessShortcut = true ∧
     holds .asWritten okFresh .init witnessIdReuse = false := by decide
 
+/-! ## the `GetTrials` filter both policy supporters implement -/
+
+/-- **GetTrials** (`ServicePolicySupporter.GetTrials` through `vz.TrialFilter`, and the loop of
+`InRamPolicySupporter.GetTrials`): a trial is returned iff it is in the table and meets EVERY given
+condition (id in the set, id ≥ min, id ≤ max, status equal) - absent conditions do not restrict; the
+result keeps the table order; without bounds it is the filter the loader model uses. -/
+theorem c12_get_trials_filter (env : Env) (ids : Option (List Nat)) (minId maxId : Option Nat) (st : Option Status) :
+    (∀ t, t ∈ getTrialsF env ids minId maxId st ↔
+      t ∈ env ∧ (∀ l, ids = some l → t.id ∈ l) ∧ (∀ m, minId = some m → m ≤ t.id) ∧
+        (∀ m, maxId = some m → t.id ≤ m) ∧ (∀ s, st = some s → t.st = s)) ∧
+    (getTrialsF env ids minId maxId st).Sublist env ∧
+    getTrialsF env ids none none st = getTrials env ids st := by
+  refine ⟨?_, List.filter_sublist, ?_⟩
+  · intro t
+    unfold getTrialsF
+    rw [List.mem_filter]
+    cases ids <;> cases minId <;> cases maxId <;> cases st <;> simp [and_assoc]
+  · unfold getTrialsF getTrials
+    congr 1
+    funext t
+    cases ids <;> cases st <;> simp
+
+example : (getTrialsF [⟨1, 1, .active⟩, ⟨2, 2, .completed⟩, ⟨3, 3, .completed⟩, ⟨5, 4, .completed⟩]
+    (some [5, 3, 1]) (some 2) (some 5) (some .completed)).map (·.id) = [3, 5] := by decide
+
 /-! ## non-vacuity: a history meeting every side condition with non-trivial deliveries -/
 
 example :
